@@ -94,7 +94,9 @@ CLAIMED["C10"] = (
     "(child in model; no successor ordered before it; every later tag up to the first later required slot listed) then "
     "inserting the child into a parent holding ANY conforming sibling list - any permitted tags, multiplicities and, for "
     "repeatable mixed content, interleavings - leaves the children in schema order; plus get_or_add creates at most one, "
-    "remove removes all, change-to leaves exactly one choice member.  The adequacy side condition is closed by `decide "
+    "remove removes all, change-to leaves exactly one choice member and - when the group's members share the child's slot - keeps "
+    "schema order too (changeTo_sorted; the group condition is a second regenerated obligation per choice declaration).  The "
+    "adequacy side condition is closed by `decide "
     "+kernel` for every row of a table REGENERATED on each run by reflection over the live element classes (closures of the "
     "generated _insert_* methods) and flattening of the shipped XSDs (307 rows today).  Translator cross-check: the real "
     "_insert_x is run on real parents for every row x the property's context enumeration and compared with the model.",
